@@ -80,17 +80,22 @@ Definition selS_hh (K : keysel) (a : snode) : snode :=
   SN (pick (k_el K) (n_el a)) (pick (k_ch K) (n_ch a)) (pick (k_amap K) (n_amap a))
      (pick (k_arom K) (n_arom a)) (pick (k_hc K) (n_hc a)) (pick (k_nb K) (n_nb a))
      (Some (match n_gh a with Some t => t | None => HH_FALLBACK end)).
-(** "H" == element: only a scalar element can be equal to the string *)
-Definition ish_S (a : snode) : bool := match n_el a with Some (Sc e) => N.eqb e EL_H | _ => false end.
+(** _is_hydrogen(element): the string "H", or the (reactant, product) pair ("H", "H")  (repair of round 5: before it, only
+    the scalar was recognised and get_rc dropped the unchanged H-H bonds of every store=True ITS) *)
+Definition ish_lab (l : lab N) : bool :=
+  match l with Sc e => N.eqb e EL_H | Pr p q => N.eqb p EL_H && N.eqb q EL_H end.
+Definition ish_S (a : snode) : bool := match n_el a with Some l => ish_lab l | None => false end.
 Definition cc_S (a : snode) : bool := match n_gh a with Some (tg, th) => negb (a_ch tg =? a_ch th) | None => false end.
 
 Definition get_rc_S (K : keysel) (disconnected keep : bool) (g : sits) : sits :=
   get_rc_g (selS K) (selS_hh K) ish_S cc_S disconnected keep g.
 
-(** flattening to the nodes of model/C02_Model.v: scalars stay, a pair keeps its reactant side — except the element, which
-    becomes "*" (any value other than "H": the H test fails on every pair) *)
+(** flattening to the nodes of model/C02_Model.v: scalars stay, a pair keeps its reactant side — except an element pair
+    ("H", q) with q other than "H", which becomes "*" (the H test needs "H" on both sides).  So an element pair with equal
+    sides flattens to that element: the flattened store=True node IS the store=False node ([flat_twin] in proof/C02_Store.v) *)
 Definition fl {T} (l : lab T) : T := match l with Sc v => v | Pr a _ => a end.
-Definition fl_el (l : lab N) : N := match l with Sc v => v | Pr _ _ => EL_STAR end.
+Definition fl_el (l : lab N) : N :=
+  match l with Sc v => v | Pr p q => if N.eqb p EL_H && negb (N.eqb q EL_H) then EL_STAR else p end.
 Definition flat (a : snode) : xnode :=
   XN (option_map fl_el (n_el a)) (option_map fl (n_ch a)) (n_amap a) (option_map fl (n_arom a)) (option_map fl (n_hc a))
      (option_map fl (n_nb a)) (n_gh a).
@@ -135,3 +140,13 @@ Definition run_S_all (K : keysel) (g : sits) : tok :=
   L [run_S1 K false false g; run_S1 K false true g; run_S1 K true false g; run_S1 K true true g;
      tlist (fun k => tsits (extract_k_S g k)) [0; 1; 2; 3]%nat;
      tset tN (unequal_nodes_g g)].
+
+(** ** vocabulary of the context theorems, generic in the node and bond types (the instances for [its] are [walk] / [dist_le]
+    of model/C02_Model.v) *)
+Inductive walk_g {A B} (g : lgraph A B) : N -> N -> nat -> Prop :=
+| walk_g_here s : walk_g g s s O
+| walk_g_step s u n m : walk_g g s u m -> adj g u n <> None -> walk_g g s n (S m).
+Definition dist_le_g {A B} (g : lgraph A B) (seeds : list N) (k : nat) (n : N) : Prop :=
+  exists s m, In s seeds /\ (m <= k)%nat /\ walk_g g s n m.
+(** find_nearest_neighbors followed by extract_subgraph, for ANY list of start atoms *)
+Definition ball_sub {A B} (g : lgraph A B) (seeds : list N) (k : nat) : lgraph A B := induced_sub g (knn_g g seeds k).
